@@ -61,7 +61,7 @@ def _cmp_matrix(interp, cmpfn, universe):
     for i, x in enumerate(universe):
         for j, y in enumerate(universe):
             try:
-                m[i][j] = interp.call_function(cmpfn, [x, y], {})
+                m[i][j] = cmpfn(x, y) if callable(cmpfn) else interp.call_function(cmpfn, [x, y], {})
             except PyRaise as e:
                 m[i][j] = f"raises {e.name}"
             except Unsupported as e:
@@ -174,8 +174,43 @@ def r2_vector_order(ctx):
     cls.overrides["__eq__"] = lambda _i, a, b: isinstance(b, Obj) and a.f["_inner"] == b.f["_inner"]
     uni = _vec_universe(cls)
     interp = Interp(fuel=20_000_000)
-    m = _cmp_matrix(interp, reg["default"], uni)
+
+    # runtime.compare as functools.singledispatch runs it: the arm registered for the class of x
+    def dispatch(x, y):
+        if x is None:
+            arm = reg.get("type(None)")
+        elif isinstance(x, float):
+            arm = reg.get("float")
+        elif isinstance(x, Obj):
+            arm = next((reg[k] for k in reg if k != "default" and x.cls.isa(k.split(".")[-1])), None)
+        else:
+            arm = None
+        return interp.call_function(arm or reg["default"], [x, y], {})
+
+    interp.globals["compare"] = dispatch
+    interp.globals["math.isnan"] = lambda v: v != v
+    m = _cmp_matrix(interp, dispatch, uni)
     _check_total_order(ctx, "C17.R2", VEC, lt.lineno, "PersistentVector.__lt__ via runtime.compare", uni, m, lambda o: (len(o.f["_inner"]), o.f["_inner"]), lambda o: str(list(o.f["_inner"])))
+    # Python's own < / > on vectors (a user comparator, sorted() without a key) still go through
+    # PersistentVector.__lt__: the same laws for the three-way value derived from it
+    if any(k != "default" and cls.isa(k.split(".")[-1]) for k in reg):
+        m = _cmp_matrix(interp, reg["default"], uni)
+        _check_total_order(ctx, "C17.R2", VEC, lt.lineno, "PersistentVector.__lt__ via (x > y) - (x < y)", uni, m, lambda o: (len(o.f["_inner"]), o.f["_inner"]), lambda o: str(list(o.f["_inner"])))
+    # vectors of comparables *with nil below everything*: the same laws with nil among the elements
+    nil_uni = [Obj(cls, _inner=t, _meta=None) for n in range(0, 3) for t in itertools.product((None, 0, 1), repeat=n)]
+    key = lambda o: (len(o.f["_inner"]), tuple((0, 0) if e is None else (1, e) for e in o.f["_inner"]))
+    show = lambda o: "[" + " ".join("nil" if e is None else str(e) for e in o.f["_inner"]) + "]"
+    m = _cmp_matrix(interp, dispatch, nil_uni)
+    _check_total_order(ctx, "C17.R2", VEC, lt.lineno, "vectors with nil elements via runtime.compare", nil_uni, m, key, show)
+    # a NaN element: compare stays antisymmetric (what a NaN ties with is the scalar rule's business)
+    nan = float("nan")
+    nan_uni = [Obj(cls, _inner=t, _meta=None) for t in ((nan,), (1,), (0, nan), (0, 1), (nan, 0), (1, 2))]
+    m = _cmp_matrix(interp, dispatch, nan_uni)
+    bad = [(i, j) for i in range(len(nan_uni)) for j in range(len(nan_uni))
+           if not (isinstance(m[i][j], int) and isinstance(m[j][i], int) and m[i][j] == -m[j][i])]
+    shown = lambda o: "[" + " ".join("##NaN" if e != e else str(e) for e in o.f["_inner"]) + "]"
+    ctx.ob("C17.R2", f"{VEC}::vectors with a NaN element via runtime.compare::antisym", VEC, lt.lineno, not bad,
+           "" if not bad else f"compare(x,y) != -compare(y,x): e.g. ({shown(nan_uni[bad[0][0]])}, {shown(nan_uni[bad[0][1]])}) -> compare={m[bad[0][0]][bad[0][1]]}, reverse={m[bad[0][1]][bad[0][0]]}; {len(bad)} case(s)")
 
 
 @rule("C17.R3", floor=6)
@@ -340,6 +375,12 @@ def r5_no_lossy_conversion_no_rewrapped_keys(ctx):
 _LT_GOOD ="        return self._ns < other._ns or self._name < other._name"
 
 SELFTEST = [
+    {"name": "vectors compared by raw < on the elements (the repaired defect)", "file": RT, "expect": "C17.R2",
+     "old": "@compare.register(IPersistentVector)\n", "new": ""},
+    {"name": "vector arm: element ties end the walk", "file": RT, "expect": "C17.R2",
+     "old": "        c = compare(a, b)\n        if c != 0:\n            return c\n    return 0\n", "new": "        c = compare(a, b)\n        return c\n    return 0\n"},
+    {"name": "vector arm: nil on the right not answered", "file": RT, "expect": "C17.R4",
+     "old": "def _compare_vector(x: IPersistentVector, y) -> int:\n    if y is None:\n        return 1\n", "new": "def _compare_vector(x: IPersistentVector, y) -> int:\n"},
     {"name": "keyword: or-chain (the repaired defect)", "file": KW, "expect": "C17.R1",
      "old": "        return (self._ns, self._name) < (other._ns, other._name)", "new": _LT_GOOD},
     {"name": "symbol: name-major order", "file": SYM, "expect": "C17.R1",
